@@ -391,6 +391,10 @@ impl DistinguishedName {
 				_ => return Err(Error::CouldNotParseCertificate),
 			};
 
+			if dn.get(&dn_type).is_some() {
+				// a name that repeats an attribute type cannot be represented
+				return Err(Error::CouldNotParseCertificate);
+			}
 			dn.push(dn_type, dn_value);
 		}
 		Ok(dn)
